@@ -281,7 +281,7 @@ pub fn monitor(tier: Tier) -> Monitor {
         ],
         families: vec![
             Family { name: "big", count: tier.pick(4, 12), priority: true, enumerated: false, run: fam_big },
-            Family { name: "random", count: tier.pick(8_000, 400_000), priority: false, enumerated: false, run: fam_random },
+            Family { name: "random", count: tier.pick(20_000, 600_000), priority: false, enumerated: false, run: fam_random },
             Family { name: "readers", count: tier.pick(300, 10_000), priority: false, enumerated: false, run: fam_readers },
             Family { name: "many_blocks", count: tier.pick(60, 1500), priority: false, enumerated: false, run: fam_many_blocks },
             Family { name: "liblzma", count: tier.pick(300, 6000), priority: false, enumerated: false, run: fam_liblzma },
